@@ -13,12 +13,23 @@
      moving a root, delete(), ... included).  With C19 (eResource of any
      object is its root's) this gives "every descendant reports its root's
      resource".
-   PARTIAL: the containment half (slot membership <-> eContainer /
-   eContainmentFeature, acyclicity) is not yet a theorem; it is carried by the
-   correspondence on the ownership projection and by the forest oracle of
-   harness/props/c02.py. *)
+   * the containment half, for every well-formed metamodel (`wf_mm`) and every
+     history from the initial state (Proofs/OwnAll.v `WF_history`, consequences in
+     Proofs/WFCorollaries.v): eContainer()/eContainmentFeature() name (p, f)
+     exactly when f is a containment reference whose slot in p holds the object;
+     at most one containment slot of one container holds an object, and holds it
+     once; an object has no container exactly when no containment slot holds it;
+     a root of a resource has no container (an object is owned by a slot or by
+     a root position, never by both); "giving an object a new owner removes it
+     from the previous one" is the preservation of this invariant by every
+     linking operation (re-parenting, container end, Resource.append of a
+     contained object).
+   Acyclicity of the containment graph is the property's own quantifier
+   (pyecore does not check it); see the theorems at the end of this file for
+   what is proved about it. *)
 From Coq Require Import ZArith List Bool Arith.
-From PyecoreV Require Import Lib.PyBase Lib.PyList Model.Kernel Proofs.C02Proofs.
+From PyecoreV Require Import Lib.PyBase Lib.PyList Model.Kernel Proofs.C01Full Proofs.C02Proofs Proofs.WFBase Proofs.SymLink
+  Proofs.OwnAll Proofs.WFCorollaries.
 Import ListNotations.
 
 Theorem C02_failed_operation_changes_nothing_partial :
@@ -52,3 +63,58 @@ Example C02_witness :
   fst (fst r) = Some KeyErr /\ cont (snd (fst r)) 2 = Some (0, 0) /\
   cont s2 2 = Some (1, 0) /\ vals s2 (0, 0) = [] /\ vals s2 (1, 0) = [VObj 2] /\ vals s2 (2, 1) = [VObj 1].
 Proof. vm_compute. repeat split; reflexivity. Qed.
+
+(* ---------- the containment half, in every reachable state ---------- *)
+Theorem C02_container_names_exactly_the_owning_slot :
+  forall m, wf_mm m -> ref_defaults_none m -> forall ops, Forall (op_many m) ops ->
+  forall c p f,
+    cont (reach m ops) c = Some (p, f) <->
+    (f_cont (fd m f) = true /\ In (VObj c) (vals (reach m ops) (p, f))).
+Proof. exact reach_container_iff_held. Qed.
+Print Assumptions C02_container_names_exactly_the_owning_slot.
+
+Theorem C02_at_most_one_owning_slot :
+  forall m, wf_mm m -> ref_defaults_none m -> forall ops, Forall (op_many m) ops ->
+  forall c p p' f f',
+    f_cont (fd m f) = true -> f_cont (fd m f') = true ->
+    In (VObj c) (vals (reach m ops) (p, f)) -> In (VObj c) (vals (reach m ops) (p', f')) ->
+    p = p' /\ f = f'.
+Proof. exact reach_one_owner_slot. Qed.
+Print Assumptions C02_at_most_one_owning_slot.
+
+Theorem C02_held_once_by_its_slot :
+  forall m, wf_mm m -> ref_defaults_none m -> forall ops, Forall (op_many m) ops ->
+  forall p f, f_cont (fd m f) = true -> NoDup (objs_of (vals (reach m ops) (p, f))).
+Proof. exact reach_once_in_owner_slot. Qed.
+Print Assumptions C02_held_once_by_its_slot.
+
+Theorem C02_no_container_iff_unheld :
+  forall m, wf_mm m -> ref_defaults_none m -> forall ops, Forall (op_many m) ops ->
+  forall c,
+    cont (reach m ops) c = None <->
+    (forall p f, f_cont (fd m f) = true -> ~ In (VObj c) (vals (reach m ops) (p, f))).
+Proof. exact reach_no_container_iff_unheld. Qed.
+Print Assumptions C02_no_container_iff_unheld.
+
+Theorem C02_roots_once_in_one_resource_and_uncontained :
+  forall m, wf_mm m -> ref_defaults_none m -> forall ops, Forall (op_many m) ops ->
+  forall c r r',
+    NoDup (rcont (reach m ops) r) /\
+    (In c (rcont (reach m ops) r) <-> eres (reach m ops) c = Some r) /\
+    (In c (rcont (reach m ops) r) -> In c (rcont (reach m ops) r') -> r = r') /\
+    (In c (rcont (reach m ops) r) -> cont (reach m ops) c = None).
+Proof. exact reach_roots. Qed.
+Print Assumptions C02_roots_once_in_one_resource_and_uncontained.
+
+Theorem C02_eresource_is_the_resource_of_the_chain_end :
+  forall m, wf_mm m -> ref_defaults_none m -> forall ops, Forall (op_many m) ops ->
+  forall o r,
+    eresource_of m (reach m ops) o = Some r <->
+    In (root_of (S (length (ocls m))) (reach m ops) o) (rcont (reach m ops) r).
+Proof. exact reach_eresource_is_roots. Qed.
+Print Assumptions C02_eresource_is_the_resource_of_the_chain_end.
+
+Theorem C02_invariant_step :
+  forall m, wf_mm m -> forall s o, WF m s -> op_many m o -> WF m (next m s o).
+Proof. exact WF_step. Qed.
+Print Assumptions C02_invariant_step.
